@@ -8,8 +8,9 @@ echo "|---|---|---|---|---|---|" >> seeded/MATRIX.md
 for d in seeded/C*/; do
   name=$(basename $d); id=${name%%-*}
   [ -f "$d/patch.diff" ] || continue
-  if ! git -C /repo apply --check "/verif/$d/patch.diff" 2>/dev/null; then echo "$name: patch does not apply"; continue; fi
-  git -C /repo apply "/verif/$d/patch.diff"
+  PATCH="/verif/$d/patch.diff"; [ -f "$d/patch.ported.diff" ] && PATCH="/verif/$d/patch.ported.diff"
+  if ! git -C /repo apply --check "$PATCH" 2>/dev/null; then echo "$name: patch does not apply"; continue; fi
+  git -C /repo apply "$PATCH"
   ./check $id $TIER > "$d/check_$TIER.log" 2>&1; RC=$?
   git -C /repo checkout -- .
   first=$(grep -m1 "^violation:" "$d/check_$TIER.log" | cut -c12-260 | tr '|' '/')
